@@ -102,6 +102,13 @@ func init() {
 			}
 			c.DFSBoth(sc.name(), explore.Bounds{Preempt: pb, Dev: 1}, 1)
 		}
+		for _, reg := range []string{"tools", "prompts", "resources"} {
+			for _, mode := range []string{"sl", "ls", "io"} {
+				for _, v := range []string{"reentrant", "blocked"} {
+					c.DFS("c12/"+reg+"-self/"+mode+"/"+v, explore.Bounds{Preempt: c.Pick(1, 2), Dev: 0, POR: true, MaxExec: c.Pick(800, 30000)})
+				}
+			}
+		}
 		for _, mode := range []string{"sl", "sj", "ls", "io"} {
 			for _, v := range []string{"reentrant", "blocked"} {
 				c.DFS("c12/nhandlers-self/"+mode+"/"+v, explore.Bounds{Preempt: c.Pick(1, 2), Dev: 0, POR: true, MaxExec: c.Pick(1500, 50000)})
@@ -416,6 +423,94 @@ func init() {
 			mode, v := mode, v
 			RegisterScenario(&Scenario{Name: "c12/nhandlers-self/" + mode + "/" + v, Run: func(p []int, m []vsched.ChoicePoint) explore.Outcome { return c12Handlers(p, mode, v) },
 				Doc: "server mode " + mode + ": a notification handler that " + map[string]string{"reentrant": "registers another handler itself", "blocked": "is still running while another goroutine registers a handler"}[v]})
+		}
+	}
+}
+
+// c12Entries: the handler of a registered tool / prompt / resource is still running (or itself
+// registers another entry) while the registry is changed: registration must not wait for user code.
+func c12Entries(prefix []int, mode, reg, variant string) explore.Outcome {
+	var viol []explore.Violation
+	obs := &hx.Log{}
+	k := func(s string) string { return s + ":" + reg + ":" + mode + ":" + variant }
+	res := vsched.Run(cfgFor(prefix), func() {
+		vsched.SetBranching(false)
+		r := NewRig(mode)
+		gate := &hx.Flag{}
+		started := &hx.Flag{}
+		w := &c12World{r: r, reg: reg, clock: &hx.Counter{}}
+		inside := func() {
+			started.Set()
+			switch variant {
+			case "reentrant":
+				w.register("b", "hb")
+			case "blocked":
+				gate.Wait("handler of entry a waits for release")
+			}
+		}
+		switch reg {
+		case "tools":
+			r.RegisterTool(mcp.NewTool("a"), func(ctx context.Context, req *mcp.CallToolRequest) (*mcp.CallToolResult, error) {
+				inside()
+				return mcp.NewTextResult("h1"), nil
+			})
+		case "prompts":
+			r.RegisterPrompt(&mcp.Prompt{Name: "a"}, func(ctx context.Context, req *mcp.GetPromptRequest) (*mcp.GetPromptResult, error) {
+				inside()
+				return &mcp.GetPromptResult{Description: "h1", Messages: []mcp.PromptMessage{}}, nil
+			})
+		case "resources":
+			r.RegisterResource(&mcp.Resource{Name: "a", URI: "res://a"}, func(ctx context.Context, req *mcp.ReadResourceRequest) (mcp.ResourceContents, error) {
+				inside()
+				return mcp.TextResourceContents{URI: "res://a", Text: "h1"}, nil
+			})
+		}
+		r.Start()
+		w.rp = NewRawPeer(r)
+		if err := w.rp.Handshake(); err != nil {
+			viol = append(viol, V("setup-handshake-fails", "setting the scenario up with well-behaved peers fails: %v", err))
+			return
+		}
+		vsched.Quiesce()
+		vsched.SetBranching(true)
+		var callRes string
+		callDone, regDone := &hx.Flag{}, &hx.Flag{}
+		vsched.Go("call-a", func() { callRes = w.do("callA", 101); callDone.Set() })
+		if variant == "blocked" {
+			vsched.Go("register-b", func() { started.Wait("until the handler runs"); w.register("b", "hb"); regDone.Set() })
+		}
+		vsched.Quiesce()
+		if variant == "blocked" {
+			if !regDone.Get() {
+				viol = append(viol, V(k("register-blocked-by-running-handler"), "registering entry b did not return while the handler of entry a is still running; blocked: %v", vsched.LiveThreads()))
+			}
+			gate.Set()
+			vsched.Quiesce()
+		}
+		if !callDone.Get() {
+			viol = append(viol, V(k("call-never-returns"), "the call of entry a never returned; blocked: %v", vsched.LiveThreads()))
+			return
+		}
+		if callRes != "h1" {
+			viol = append(viol, V(k("call-result"), "the call of entry a returned %q", callRes))
+		}
+		vsched.SetBranching(false)
+		if l := w.do("list", 102); !strings.Contains(l, "b=hb") || !strings.Contains(l, "a=") {
+			viol = append(viol, V(k("list-after"), "after the registration the list is %s", l))
+		}
+		obs.Add("%s", callRes)
+	})
+	return finishOutcome(res, obs, viol, true)
+}
+
+func init() {
+	for _, reg := range []string{"tools", "prompts", "resources"} {
+		for _, mode := range []string{"sl", "ls", "io"} {
+			for _, v := range []string{"reentrant", "blocked"} {
+				reg, mode, v := reg, mode, v
+				RegisterScenario(&Scenario{Name: "c12/" + reg + "-self/" + mode + "/" + v, Run: func(p []int, m []vsched.ChoicePoint) explore.Outcome { return c12Entries(p, mode, reg, v) },
+					Doc: "registry " + reg + " on server mode " + mode + ": the handler of an entry " + map[string]string{"reentrant": "registers another entry itself", "blocked": "is still running while another goroutine registers an entry"}[v]})
+			}
 		}
 	}
 }
